@@ -192,6 +192,53 @@ class WeaverGridOtherRange(Family):
             (ctx.same(a, b) is True) or (not ctx.symbolic and ctx.same(a, b)) for a, b in zip(list(w.reference_x), rx)))
 
 
+class WeaverGridIntegerTypedSeries(Family):
+    name = "weaver-interpolate-real-grid-on-integer-typed-series"
+    doc = ("a Weaver whose abscissae are integer-typed (x omitted -> arange, list of ints, int64 array) interpolated onto an explicit "
+           "grid of REAL points: the grid is used as given (not narrowed to the series' type) and the values follow the definition")
+
+    def configs(self, tier):
+        return [{"xkind": k, "method": m, "G": G} for k in ("default", "int-list", "int64") for m in ("linear", "constant")
+                for G in ((1, 2) if tier == "quick" else (1, 2, 3))]
+
+    def run(self, ctx, inst, xkind, method, G):
+        from traffic_weaver import Weaver
+        ctx.typed_inputs = True
+        xi = [0, 1, 2, 3] if xkind == "default" else [-2, 0, 1, 4]
+        L = len(xi)
+        ys = ctx.reals("y", L)
+        mids = ctx.reals("g", G)
+        increasing(ctx, mids)
+        ctx.assume(ctx.And(ctx.lt(xi[0], mids[0]), ctx.lt(mids[-1], xi[-1])))
+        grid = [ctx.const(xi[0]) if ctx.symbolic else float(xi[0])] + list(mids) + [ctx.const(xi[-1]) if ctx.symbolic else float(xi[-1])]
+        yin = arr(ctx, ys)
+        w = Weaver(None, yin) if xkind == "default" else Weaver(list(xi) if xkind == "int-list" else np.array(xi, dtype=np.int64), yin)
+        w.interpolate(new_x=arr(ctx, grid), method=method)
+        gx, gy = w.get()
+        n = len(grid)
+        ctx.note("gx", gx)
+        ctx.claim("explicit-grid:used-as-given", len(gx) == n and len(gy) == n and bool(ctx.And(*[ctx.eq(a, b) for a, b in zip(list(gx), grid)]))
+                  if not ctx.symbolic else (len(gx) == n and len(gy) == n and ctx.And(*[ctx.eq(a, b) for a, b in zip(list(gx), grid)])))
+        if len(gx) != n or len(gy) != n:
+            return
+        for i in range(n - 1):
+            ctx.claim("explicit-grid:strictly-increasing", ctx.lt(gx[i], gx[i + 1]), {"i": i})
+        X = [ctx.const(v) if ctx.symbolic else float(v) for v in xi]
+        for i, q in enumerate(grid):
+            Q = ctx.exact(q) if not ctx.symbolic else q
+            # the sample interval holding the grid point
+            j = 0
+            while j < L - 2 and bool(Q >= X[j + 1]):
+                j += 1
+            if bool(Q == X[L - 1]):
+                exp = ys[L - 1]
+            elif method == "constant":
+                exp = ys[j]
+            else:
+                exp = ys[j] + (ys[j + 1] - ys[j]) * (q - X[j]) / (X[j + 1] - X[j])
+            ctx.claim("explicit-grid:value-follows-the-definition", ctx.eq(gy[i], exp), {"i": i, "j": j, "method": method})
+
+
 class WeaverGrid(Family):
     name = "weaver-interpolate-grid"
     doc = "Weaver.interpolate(n): exactly n equally spaced points over the same range; explicit grid must share both end points"
@@ -261,4 +308,4 @@ if __name__ == "__main__":
     ap = argparse.ArgumentParser()
     ap.add_argument("--tier", default="quick")
     a = ap.parse_args()
-    sys.exit(run_check("C13", "interpolation", [Constant(), ConstantIntegerGrid(), Linear(), SplineRoles(), WeaverGrid(), WeaverGridOtherRange()], a.tier, META))
+    sys.exit(run_check("C13", "interpolation", [Constant(), ConstantIntegerGrid(), Linear(), SplineRoles(), WeaverGrid(), WeaverGridOtherRange(), WeaverGridIntegerTypedSeries()], a.tier, META))
